@@ -86,16 +86,33 @@ type Row struct {
 	Succs    []string // for terminators: the slots holding the blocks Succs() returns, in order; "-" for instructions
 	Live     bool     // writing through every exposed slot changes the instance's field
 	SuccLive bool     // after retargeting every slot, Succs() returns the new blocks
+	Flags    bool     // analysed with every exported boolean field of the instance set
+}
+
+// setFlags sets every exported boolean field of the instance (Cleanup, Volatile, InBounds, ...): the views must not depend on them.
+func setFlags(v reflect.Value) {
+	t := v.Type()
+	for i := 0; i < v.NumField(); i++ {
+		if t.Field(i).IsExported() && v.Field(i).Kind() == reflect.Bool && v.Field(i).CanSet() {
+			v.Field(i).SetBool(true)
+		}
+	}
 }
 
 // Analyse builds an instance of the (pointer to struct) type of x and inspects its views.
-func Analyse(x interface{}) Row {
+func Analyse(x interface{}) Row { return AnalyseWith(x, false) }
+
+// AnalyseWith: with flags, every exported boolean field of the instance is set before the views are taken.
+func AnalyseWith(x interface{}, flags bool) Row {
 	t := reflect.TypeOf(x).Elem()
 	inst := reflect.New(t)
 	var slots []slot
 	n := 0
 	fill(inst.Elem(), "", &slots, &n)
-	row := Row{Type: t.Name(), Live: true, SuccLive: true}
+	if flags {
+		setFlags(inst.Elem())
+	}
+	row := Row{Type: t.Name(), Flags: flags, Live: true, SuccLive: true}
 	byAddr := map[uintptr]string{}
 	for _, s := range slots {
 		row.Slots = append(row.Slots, s.path)
@@ -180,6 +197,9 @@ func Analyse(x interface{}) Row {
 				var slots2 []slot
 				n2 := 0
 				fill(inst2.Elem(), "", &slots2, &n2)
+				if flags {
+					setFlags(inst2.Elem())
+				}
 				sc2 := inst2.Interface().(succer)
 				_ = sc2.Succs()
 				for _, s2 := range slots2 {
